@@ -14,6 +14,23 @@ tie:    hand-written model  <->  Array::operator()(int / index expression / rang
         non-unit / negative strides and non-zero begin.  After every operation: rank, extents, offsets,
         data()-parent.data(), every element (read through the const operator()), then a write of fresh values through
         the view (non-const operator()) and a diff of the whole parent allocation; compared exactly with the model.
+        WHOLE-VIEW OPERATIONS (harness/drv_views_w.h): every view of rank >= 1 held by an Array (all ranks, all view kinds,
+        passive, active, views of FixedArray parents) is then ALSO exercised through the library's own loops over "all
+        elements" -- V = -5, V += 1000, B = V (B empty: takes the view's extents), V = B*2+3, the move assignment V2 =
+        <temporary Array> (V2 a copy of the view object), sum(V), maxval(V), V.where(V > t) = -9, and for rank 1 count(V > t)
+        / find(V > t) -- each on the parent holding its own cell numbers, followed by a before/after comparison of EVERY cell
+        of the parent allocation (stray stores inside the allocation) under AddressSanitizer red zones of >= 512 bytes
+        around it (stray accesses outside).  A selection WITHOUT elements (empty range r:k,k-1 / empty stride in ANY
+        position) must be an empty array -- all extents zero, the view constructors' convention after F-76 -- and every
+        whole-view operation must leave the parent alone, B stays empty, sum = maxval = 0 (reduce.h).  Zero-extent selectors
+        are generated at random (9% of the range / stride arguments) and by a directed sweep: every rank 1..6 x every
+        position x 7 empty selectors x every kind of neighbour selector, on passive rm/cm parents, strided receivers, active
+        arrays and FixedArray parents, followed by members applied to the empty view.
+        ELEMENT ACCESS: operator() with only scalar arguments is dispatched separately (every argument passed exactly as
+        written, per position an int or end-k, const and non-const accessor) for Array<r,int> r = 1..6, active r = 1..3 and
+        FixedArray<int,false,..> 4 / 3x4 / 2x3x4 / 2x3x4x5; a directed sweep puts 0 / middle / last index (bounds-checked
+        build also n and -1) as int and as end-k into every position of objects with pairwise different extents, 7% of the
+        random operator() calls are element accesses.
         Two builds: default (admissible arguments only) and -DADEPT_BOUNDS_CHECKING (also a malformed stream that puts an
         out-of-range value in every argument position).
         Index expressions: an index, range end point or stride is k, end-k, or one of the compiled shapes of `end`
@@ -35,7 +52,9 @@ tie:    hand-written model  <->  Array::operator()(int / index expression / rang
         build also: entries n, n+1, -1 at every position of every index vector, bad scalars and range end points.
 oracle: the composed index map evaluated element by element in Python (a view is the list of parent cells it
         denotes; no base/stride arithmetic, no use of the Lean model; index expressions evaluated by a small Python
-        evaluator with C truncating division), judged against the implementation's output.
+        evaluator with C truncating division), judged against the implementation's output.  The expected outcome of every
+        whole-view operation (cells changed and their values, extents and values of B, sum, maximum, count, positions) is
+        derived from the list of denoted cells alone.
         For `ix`: per dimension the list of parent indices the selector denotes (plain integer arithmetic), the
         elements are the tuples of their product in index order; an element with a component outside 0..n-1 must not
         be accessed (bounds-checked build: index_out_of_bounds, and the only cells changed are cells of in-range
@@ -54,17 +73,22 @@ REQUIRED = ["C06_slice_addr", "C06_slice_rank", "C06_range_extent", "C06_subset_
             "C06_indexed_addr", "C06_indexed_extents", "C06_indexed_within_parent", "C06_indexed_read_write",
             "C06_indexed_write_through", "C06_indexed_checked_rejects",
             "C06_endexpr_forms", "C06_endexpr_operand_order", "C06_endexpr_reversal", "C06_endexpr_midpoint_admissible",
-            "C06_vexpr_entry", "C06_stride_expr_addr"]
+            "C06_vexpr_entry", "C06_stride_expr_addr",
+            "C06_empty_view_canonical", "C06_nonempty_unchanged", "C06_reachable_canonical", "C06_isEmpty_iff_no_element"]
 H = os.path.join(vbuild.VERIF, "harness")
 DRIVERS = [os.path.join(H, f) for f in
            ["drv_views.cpp"] + ["drv_views_r%d%s.cpp" % (r, x) for r in (4, 5, 6) for x in ("", "i", "e")] +
-           ["drv_views_act.cpp", "drv_views_fix.cpp", "drv_views_x1.cpp", "drv_views_x2.cpp", "drv_views_x3.cpp",
+           ["drv_views_act.cpp", "drv_views_fix.cpp", "drv_views_fix4.cpp", "drv_views_x1.cpp", "drv_views_x2.cpp", "drv_views_x3.cpp",
             "drv_views_x4.cpp", "drv_views_x5.cpp", "drv_views_x6.cpp",
             "drv_views_idx.cpp", "drv_views_idx2a.cpp", "drv_views_idx2b.cpp", "drv_views_idx2c.cpp", "drv_views_idx2d.cpp",
-            "drv_views_idx3.cpp", "drv_views_idx3r.cpp", "drv_views_idx3v.cpp", "drv_views_idx4.cpp"]]
+            "drv_views_idx3.cpp", "drv_views_idx3r.cpp", "drv_views_idx3v.cpp", "drv_views_idx4.cpp",
+            "drv_views_w123.cpp", "drv_views_w456.cpp", "drv_views_wact.cpp"]]
 CORR = ("AdeptModel/Views.lean, AdeptModel/IndexedViews.lean <-> Array view-forming member functions and IndexedArray "
         "(harness/drv_views*.cpp)")
 SIG_EMPTY = "indexed-array-zero-extent-after-nonzero-leading-extent"
+# guard zones around the parent allocation: AddressSanitizer red zones of at least 512 bytes (128 int / 64 double cells) on
+# both sides of every heap block; inside the allocation every cell is compared before/after each whole-view operation
+ASAN_OPTS = "detect_leaks=1:abort_on_error=0:halt_on_error=1:redzone=512"
 
 
 # ====================================================================== oracle: views as lists of parent cells
@@ -303,11 +327,21 @@ def sel_range(b, e, s, length, checked):
     return list(range(b, e + (1 if s > 0 else -1), s))
 
 
+def constructed(dims, cells):
+    """the Array a view-forming member returns: a selection without elements (some extent zero) is an EMPTY array, and an
+    empty array has all extents zero (the library's convention for arrays without elements: Array::resize, clear(), the
+    default constructor; repair F-76 makes the view constructors follow it)"""
+    dims = list(dims)
+    if 0 in dims:
+        return OV([0] * len(dims), [])
+    return OV(dims, cells)
+
+
 def gather(v, sels, drop):
     """new view whose element (i0,i1,..) is v[sels[0][i0], sels[1][i1], ..]; dimensions in `drop` are removed"""
     nd = [len(s) for s, dr in zip(sels, drop) if not dr]
     cells = [v.at(ix) for ix in itertools.product(*sels)]
-    return OV(nd, cells)
+    return constructed(nd, cells)
 
 
 CONST_OPS = ("slice", "subset", "idx", "T", "softlink")
@@ -433,11 +467,11 @@ def oracle_apply(v, w, checked, kind="P"):
                 return ("err", "invalid_dimension")
             if any(d < 0 for d in nd):
                 return UNDEF
-            return ("ok", OV(nd, v.cells))
+            return ("ok", constructed(nd, v.cells))
         if op == "softlink" and len(w) == 1:
             if kind == "F":
                 return ("bad",)             # FixedArray has no soft_link
-            return ("ok", OV(v.dims, v.cells))
+            return ("ok", constructed(v.dims, v.cells))
     except ValueError:
         return ("bad",)
     except Undef:
@@ -669,10 +703,17 @@ def judge_ix(v, info, line, checked, vol):
     return None
 
 
+WHOLE_FIELDS = ("f", "a", "b", "x", "v", "m", "h", "n")     # the whole-view operations of harness/drv_views_w.h, in this order
+WHOLE_TEXT = {"f": "V = -5", "a": "V += 1000", "b": "B = V (B empty)", "x": "V = B*2+3", "v": "V2 = <temporary Array holding B*3+1> (V2 a copy of the view object)",
+              "m": "sum(V), maxval(V)", "h": "V.where(V > t) = -9", "n": "count(V > t), find(V > t)"}
+
+
 def parse_line(line):
-    """'ok r=.. d=.. s=.. o=.. e=.. w=..' -> dict"""
+    """'ok r=.. d=.. s=.. o=.. e=.. w=..' [+ ' f=.. a=.. b=.. x=.. v=.. m=.. h=.. n=..'] -> dict
+    whole-view fields (key 'whole', None when absent): cell maps for f a x v h, (extents, values) for b, (sum, max) for m,
+    (count, positions) or None for n; a field in which the library raised is the string '!class/...'"""
     w = line.split(" ")
-    if w[0] != "ok" or len(w) != 7:
+    if w[0] != "ok" or len(w) not in (7, 7 + len(WHOLE_FIELDS)):
         return None
     d = {}
     try:
@@ -680,14 +721,86 @@ def parse_line(line):
             k, x = t.split("=", 1)
             d[k] = x
         ints = lambda s: [int(x) for x in s.split(",")] if s else []
-        out = {"r": int(d["r"]), "d": ints(d["d"]), "s": ints(d["s"]), "o": int(d["o"]), "e": ints(d["e"]), "w": {}}
-        if d["w"]:
-            for t in d["w"].split(";"):
-                c, x = t.split(":")
-                out["w"][int(c)] = int(x)
+
+        def cellmap(t):
+            m = {}
+            if t:
+                for u in t.split(";"):
+                    c, x = u.split(":")
+                    m[int(c)] = int(x)
+            return m
+        out = {"r": int(d["r"]), "d": ints(d["d"]), "s": ints(d["s"]), "o": int(d["o"]), "e": ints(d["e"]), "w": cellmap(d["w"]),
+               "whole": None}
+        if len(w) > 7:
+            if [t.split("=", 1)[0] for t in w[7:]] != list(WHOLE_FIELDS):
+                return None
+            wh = {}
+            for k in WHOLE_FIELDS:
+                t = d[k]
+                if t.startswith("!"):
+                    wh[k] = t
+                elif k in "faxvh":
+                    wh[k] = cellmap(t)
+                elif k == "b":
+                    dd, vv = t.split("|")
+                    wh[k] = (ints(dd), ints(vv))
+                elif k == "m":
+                    a, b = t.split(",")
+                    wh[k] = (int(a), int(b))
+                else:
+                    if t == "-":
+                        wh[k] = None
+                    else:
+                        n, pos = t.split("|")
+                        wh[k] = (int(n), ints(pos))
+            out["whole"] = wh
         return out
     except (KeyError, ValueError):
         return None
+
+
+def whole_expected(v, vol):
+    """what the whole-view operations must do, from the list of cells the view denotes alone (the parent holds its own
+    cell numbers; t = vol // 2)"""
+    C = v.cells
+    t = vol // 2
+    return {"f": {c: -5 for c in C}, "a": {c: c + 1000 for c in C}, "b": (list(v.dims), list(C)),
+            "x": {c: 2 * c + 3 for c in C}, "v": {c: 3 * c + 1 for c in C},
+            "m": (sum(C), max(C) if C else 0),
+            "h": {c: -9 for c in C if c > t},
+            "n": (sum(1 for c in C if c > t), [j for j, c in enumerate(C) if c > t]) if len(v.dims) == 1 else None}
+
+
+def judge_whole(v, o, vol):
+    """the whole-view part of an answer; None or a message"""
+    wh = o["whole"]
+    if wh is None:
+        return "the view was not exercised through the whole-view operations (answer without the fields f= .. n=)"
+    if len(set(v.cells)) != len(v.cells):
+        return None                         # (no admissible operation makes a view denote a cell twice)
+    exp = whole_expected(v, vol)
+    for k in WHOLE_FIELDS:
+        got, want = wh[k], exp[k]
+        if got == want:
+            continue
+        what = "whole-view operation %s on a view of extents %s denoting %d element(s)" % (WHOLE_TEXT[k], v.dims, len(v.cells))
+        if isinstance(got, str):
+            return "%s raised %s" % (what, got[1:].split("/")[0])
+        if k in "faxvh":
+            extra = sorted(set(got) - set(want))
+            miss = sorted(set(want) - set(got))
+            wrong = sorted(c for c in set(got) & set(want) if got[c] != want[c])
+            return ("%s changed parent cells %s that the view does not denote / left %s of its cells unchanged / stored wrong "
+                    "values in %s" % (what, extra[:6], miss[:6], wrong[:6]))
+        if k == "b":
+            if got[0] != want[0]:
+                return "%s: B has the extents %s, the view has %s" % (what, got[0], want[0])
+            return "%s: B holds %s.., the view denotes the cells %s.." % (what, got[1][:8], want[1][:8])
+        if k == "m":
+            return "%s returned (%d, %d), the denoted cells have sum %d and maximum %d%s" % (
+                what, got[0], got[1], want[0], want[1], "" if v.cells else " (no element: 0, 0)")
+        return "%s returned %s, the denoted cells give %s" % (what, got, want)
+    return None
 
 
 def packed(dims):
@@ -698,14 +811,19 @@ def packed(dims):
     return list(reversed(s))
 
 
-def judge_view(v, line, vol):
-    """compare one implementation line with the view the index expressions denote; None or a message"""
+def judge_view(v, line, vol, whole=True):
+    """compare one implementation line with the view the index expressions denote; None or a message.
+    whole: the answer must carry the whole-view operations (every view of rank >= 1 held by an Array)"""
     o = parse_line(line)
     if o is None:
         return "expected a view, implementation answered %r" % line[:120]
     if o["r"] != len(v.dims):
         return "rank %d, the index expression denotes rank %d" % (o["r"], len(v.dims))
     if o["d"] != v.dims:
+        if 0 in o["d"] and v.dims == [0] * len(v.dims) and not v.cells:
+            return ("extents %s: the selection has no element, so the view must be an EMPTY array, and an empty array has all "
+                    "extents zero (Array::resize / clear(); empty() tests dimension 0 only, the library's loops over all "
+                    "elements are guarded by it)" % o["d"])
         return "extents %s, documented extents %s" % (o["d"], v.dims)
     if o["e"] != v.cells:
         k = next((i for i, (a, b) in enumerate(zip(o["e"], v.cells)) if a != b), min(len(o["e"]), len(v.cells)))
@@ -730,10 +848,12 @@ def judge_view(v, line, vol):
             if v.dims[k] > 1 and o["s"][k] != v.cells[m] - v.cells[0]:
                 return "offset(%d)=%d but consecutive elements along it are %d cells apart" % (k, o["s"][k], v.cells[m] - v.cells[0])
             m *= v.dims[k]
+    if whole and v.dims:
+        return judge_whole(v, o, vol)
     return None
 
 
-FIXED_MENU = ([4], [3, 4], [3, 3], [2, 3, 4])      # the FixedArray<int,false,...> parents compiled into the harness
+FIXED_MENU = ([4], [3, 4], [3, 3], [2, 3, 4], [2, 3, 4, 5])      # the FixedArray<int,false,...> parents compiled into the harness
 FIXED_T_IS_VIEW = [False]                          # set by run() from fixed_T_probes()
 SIG_FIXED_T = "fixedarray-T-returns-copy"
 
@@ -769,7 +889,7 @@ def oracle(lines_in, lines_out, checked, limit=None):
                 continue
             kind, v = pk
             vol = len(v.cells)
-            msg = judge_view(v, out, vol)
+            msg = judge_view(v, out, vol, whole=(kind != "F"))
             if msg:
                 return i, "fresh parent: " + msg
             last = parse_line(out)
@@ -820,11 +940,15 @@ def oracle(lines_in, lines_out, checked, limit=None):
             if out != "err " + res[1]:
                 return i, "expected exception %s, implementation answered %r" % (res[1], out[:160])
         else:
-            msg = judge_view(res[1], out, vol)
+            msg = judge_view(res[1], out, vol, whole=False)
             if msg:
                 if kind == "F" and w[0] in ("T", "cT"):
                     return i, "FixedArray::T() does not return a view of the FixedArray: " + msg, SIG_FIXED_T
                 return i, "%s: %s" % (w[0], msg)
+            if res[1].dims:
+                msg = judge_whole(res[1], parse_line(out), vol)
+                if msg:
+                    return i, "%s: %s" % (w[0], msg)
             v = res[1]
             last = parse_line(out)
             if kind == "F":
@@ -934,6 +1058,8 @@ class Gen:
         self.fixed_T_is_view = FIXED_T_IS_VIEW[0]   # FixedArray::T() is generated only where it is a view (finding, see fixed_T_probes)
         self.p_rich = 0.3          # an eligible call gets one argument rewritten as `end` arithmetic
         self.p_const = 0.5         # a member with a const overload is called through it
+        self.p_empty = 0.09        # a range / stride argument selects nothing (zero extent, in whatever position)
+        self.p_element = 0.07      # an operator() call has only scalar arguments (element access, ends the composition)
 
     def count(self, key):
         self.stats[key] = self.stats.get(key, 0) + 1
@@ -1087,12 +1213,19 @@ class Gen:
         if k < 0.28 and allow_scalar:
             return "i:" + self.E(rng.randrange(L), L), "scalar"
         if k < 0.5:
-            if L >= 2 and rng.random() < 0.04:
+            if L >= 2 and rng.random() < self.p_empty:
                 e = rng.randrange(L - 1)
                 return "r:%s,%s" % (self.E(e + 1, L), self.E(e, L)), "range-empty"
             b = rng.randrange(L); e = rng.randrange(b, L)
             return "r:%s,%s" % (self.E(b, L), self.E(e, L)), "range"
         if k < 0.8:
+            if L >= 2 and rng.random() < self.p_empty:
+                # empty stride: the direction is wrong by less than one stride, (e + s - b) / s == 0
+                s = rng.choice([2, 3, 5, -2, -3, -4])
+                lo = rng.randrange(L - 1)
+                hi = rng.randrange(lo + 1, min(L, lo + abs(s)))
+                b, e = (hi, lo) if s > 0 else (lo, hi)
+                return "s:%s,%s,%d" % (self.E(b, L), self.E(e, L), s), "stride-empty"
             s = rng.choice([1, 2, 2, 3, -1, -1, -2, -3, 5, -4])
             a = rng.randrange(L); b = rng.randrange(L)
             lo, hi = min(a, b), max(a, b)
@@ -1128,16 +1261,26 @@ class Gen:
             for L in v.dims:
                 a, k = self.slice_arg(L, allow_scalar=True)
                 args.append(a); kinds.append(k)
-            if all(k == "scalar" for k in kinds) and rng.random() < 0.85:
+            if not empty_dim and rng.random() < self.p_element:
+                # element access: every argument a scalar, per position an int or end-k
+                args = ["i:" + self.E(rng.randrange(L), L) for L in v.dims]
+                kinds = ["scalar"] * r
+                self.count("element_access_rank_%d_on_%s" % (r, {"P": "passive", "A": "active", "F": "fixedarray"}[okind]))
+            elif all(k == "scalar" for k in kinds) and rng.random() < 0.85:
                 j = rng.randrange(r)
                 args[j] = "_"; kinds[j] = "all"
             if r == 6:
                 # rank 6: the harness has `__` in the last position only; elsewhere the whole dimension is written as a range
                 for j in range(r - 1):
-                    if args[j] == "_":
+                    if args[j] == "_" and v.dims[j] > 0:
                         args[j] = "r:0,e0"; kinds[j] = "range"
+                if empty_dim and any(args[j] == "_" for j in range(r - 1)):
+                    return "softlink", "softlink"      # (an empty rank-6 view: `__` elsewhere is not compiled)
             for k in kinds:
                 self.count("arg_" + k)
+            for j, k in enumerate(kinds):
+                if k.endswith("-empty"):
+                    self.count("zero_extent_rank%d_pos%d" % (r, j))
             if bad and self.checked:
                 j = rng.randrange(r)
                 L = v.dims[j]
@@ -1865,6 +2008,132 @@ def vexpr_sweep(rng, checked, stats):
     return out
 
 
+ZERO_SELECTORS = ("r:2,1", "r:e0,e1", "r:1,0", "s:2,1,2", "s:e1,e2,3", "s:1,2,-2", "s:0,e1,-3")
+NEIGHBOURS = ("scalar", "range", "stride+", "stride-", "all")
+
+
+def neighbour_arg(kind, L, k, r, last):
+    """an admissible selector of the given kind for a dimension of length L >= 3 (k varies the values)"""
+    if kind == "scalar":
+        return ("i:%d" % (k % L)) if k % 2 else ("i:e%d" % (k % L))
+    if kind == "range":
+        return "r:1,e0" if k % 2 else "r:0,%d" % (L - 2)
+    if kind == "stride+":
+        return "s:0,e0,2" if k % 2 else "s:1,%d,2" % (L - 1)
+    if kind == "stride-":
+        return "s:e0,0,-1" if k % 2 else "s:%d,1,-2" % (L - 1)
+    return "_" if (r < 6 or last) else "r:0,e0"
+
+
+def zero_extent_sweep():
+    """a selector that selects NOTHING (empty range r:k,k-1 written with ints and with `end`, empty stride of either sign:
+    direction wrong by less than one stride) in EVERY position of operator() for every rank 1..6, with every kind of
+    neighbour selector (scalar / range / stride+ / stride- / __) in the other positions, on passive row- and column-major
+    parents, on a strided / reversed receiver, on active arrays (ranks 1..3) and on FixedArray parents (ranks 1..4);
+    likewise subset with an empty pair in every position; then members applied to the empty view (soft_link, operator()
+    with __, T, permute, reshape of an empty vector to (0), (0,2), (3,0), (2,0,2), diag_vector, operator[]).  The view
+    denotes no element: every whole-view operation must leave every cell of the parent alone, B = V must give an empty B,
+    sum and maxval 0.  One composition per case; run in both builds."""
+    out = []
+    objects = []
+    for r in range(1, 7):
+        dims = {1: [7], 2: [4, 5], 3: [3, 4, 5], 4: [3, 4, 3, 5], 5: [3, 3, 4, 3, 3], 6: [3, 3, 3, 3, 3, 3]}[r]
+        objects.append((["parent rm " + " ".join(map(str, dims))], dims, r))
+        if r <= 4:
+            objects.append((["parent cm " + " ".join(map(str, dims))], dims, r))
+            pre = ["parent rm " + " ".join(map(str, [d + 1 for d in dims])), strided_view_op([d + 1 for d in dims])]
+            nd = oracle_apply(parent_of(pre[0].split())[1], pre[1].split(), False, "P")[1].dims
+            if all(L >= 3 for L in nd):
+                objects.append((pre, nd, r))
+        if r <= 3:
+            objects.append((["aparent %s %s" % ("rm" if r != 2 else "cm", " ".join(map(str, dims)))], dims, r))
+    for dims in ([4], [3, 4], [2, 3, 4], [2, 3, 4, 5]):
+        objects.append((["fparent " + " ".join(map(str, dims))], dims, len(dims)))
+    n = 0
+    for pre, dims, r in objects:
+        fixed = pre[0].startswith("fparent")
+        for j in range(r):
+            L = dims[j]
+            for zs in ZERO_SELECTORS:
+                p = zs[2:].split(",")
+                try:
+                    if not (0 <= tok(p[0], L) < L and 0 <= tok(p[1], L) < L):
+                        continue
+                except ValueError:
+                    continue
+                for nk in NEIGHBOURS:
+                    args = []
+                    for k in range(r):
+                        if k == j:
+                            args.append(zs)
+                        elif dims[k] >= 3:
+                            args.append(neighbour_arg(nk, dims[k], k + n, r, k == r - 1))
+                        else:
+                            args.append("i:e0" if nk == "scalar" else ("_" if (r < 6 or k == r - 1) else "r:0,e0"))
+                    n += 1
+                    active = pre[0].startswith("aparent")
+                    after = ["softlink"] if not (fixed or active) else []
+                    rr = sum(1 for a in args if not a.startswith("i:"))
+                    follow = [("c" if n % 2 else "") + "slice " + " ".join("_" for _ in range(rr))] if rr < 6 else []
+                    if rr == 2:
+                        follow += ["T", "diag 0"] if n % 2 else ["permute 1 0"]
+                    if rr == 1:
+                        follow += ["reshape " + ("0", "0 2", "3 0", "2 0 2")[n % 4]]
+                    if rr >= 3 and n % 2:
+                        follow += ["permute " + " ".join(map(str, reversed(range(rr))))]
+                    if active:
+                        follow += ["softlink"]      # (ends the composition: an active soft link cannot be sliced further)
+                    out.append(pre + [("cslice " if n % 3 == 0 else "slice ") + " ".join(args)] + after + follow)
+            # subset with an empty pair in this position (needs L >= 2)
+            if L >= 2:
+                t = []
+                for k in range(r):
+                    t += (["1", "0"] if (j + r) % 2 else ["e0", "e1"]) if k == j else ["0", "e0"]
+                n += 1
+                out.append(pre + [("csubset " if n % 2 else "subset ") + " ".join(t)] + ([] if fixed else ["softlink"]))
+    return out
+
+
+def element_sweep(checked):
+    """ELEMENT access A(i0,..,ir-1) with only scalar arguments, every argument passed as written (per position a plain int
+    or end-k): for passive Arrays of rank 1..6 (row-major; column-major to rank 4), active Arrays of rank 1..3 and
+    FixedArrays of rank 1..4, all with PAIRWISE DIFFERENT extents (an index resolved against the length of another
+    dimension then names another element or is wrongly range-tested), every position x {int, end-k} x {0, middle, last
+    index; bounds-checked build also n and -1, which must raise index_out_of_bounds} x {the other positions all ints /
+    all end-k / alternating} x {non-const, const accessor}.  One composition per case."""
+    out = []
+    objects = []
+    for r, dims in ((1, [5]), (2, [3, 4]), (3, [2, 3, 4]), (4, [2, 3, 4, 5]), (5, [1, 2, 3, 4, 5]), (6, [1, 2, 3, 4, 5, 6])):
+        objects.append(("parent rm " + " ".join(map(str, dims)), dims))
+        if r <= 4:
+            objects.append(("parent cm " + " ".join(map(str, reversed(dims))), list(reversed(dims))))
+        if r <= 3:
+            objects.append(("aparent %s %s" % ("rm" if r != 2 else "cm", " ".join(map(str, dims))), dims))
+        if r <= 4:
+            objects.append(("fparent " + " ".join(map(str, dims if r > 1 else [4])), dims if r > 1 else [4]))
+    for head, dims in objects:
+        r = len(dims)
+        for j in range(r):
+            L = dims[j]
+            vals = sorted(set([0, L // 2, L - 1])) + ([L, -1] if checked else [])
+            for form in ("int", "end"):
+                for x in vals:
+                    for pat in (("int", "end", "alt") if r <= 4 else ("int", "end")):
+                        if r == 1 and pat != "int":
+                            continue
+                        args = []
+                        for k in range(r):
+                            if k == j:
+                                f, val = form, x
+                            else:
+                                f = pat if pat != "alt" else ("end" if (k + j) % 2 else "int")
+                                val = (k + 2 * j + x) % dims[k]
+                            args.append("i:" + (str(val) if f == "int" else "e%d" % (dims[k] - 1 - val)))
+                        for prefix in ("", "c"):
+                            out.append([head, prefix + "slice " + " ".join(args)])
+    return out
+
+
 def fixed_T_probes():
     """FixedArray::T(): documented (like every slicing member of FixedArray) to return an Array that links to the data of
     the FixedArray.  The pinned FixedArray::my_T builds `Array<2> out(*this)`, which for a FixedArray argument is the
@@ -1877,7 +2146,7 @@ def fixed_T_probes():
 def run_pair(exe, mode, comps):
     """run implementation and model on the compositions; -> (impl_lines, model_lines, rc, err)"""
     text = "mode %s\n" % mode + "".join("\n".join(c) + "\n" for c in comps)
-    impl, rc, err = vcheck.run_impl(exe, [], text)
+    impl, rc, err = vcheck.run_impl(exe, [], text, env={"ASAN_OPTIONS": ASAN_OPTS})
     model = vcheck.run_model("views", text)
     return impl, model, rc, err
 
@@ -2083,7 +2352,15 @@ def run(ctx, replay):
         "argument types: the compiled menus of harness/drv_views.h (plain arguments: every mixture for passive ranks 1-2, "
         "int family or end-k family per call for ranks 3-6 / active / FixedArray, rank 6 with __ in the last position only; "
         "`end` arithmetic: XSHAPES in one argument per call, passive arrays); active arrays: ranks 1..3, no "
-        "integer-vector indexing; FixedArray parents: 4, 3x4, 3x3, 2x3x4",
+        "integer-vector indexing; FixedArray parents: 4, 3x4, 3x3, 2x3x4, 2x3x4x5; element access (only scalar arguments): every "
+        "mixture of int / end-k per position for every kind of object",
+        "a selection without elements is an empty array with ALL extents zero (candidate repair F-76 of the two view "
+        "constructors of Array, following Array::resize; the documentation does not give the extents of an empty selection); "
+        "IndexedArray selections (op ix) keep per-dimension extents (IndexedArray::empty() tests every dimension); maxval "
+        "of a view without elements is 0 (reduce.h: 'Return zero if any of these functions applied to an empty array'); the "
+        "whole-view operations are executed on a copy of the view object (the copy constructor links) because an assignment "
+        "to an EMPTY array legitimately resizes / clears that object; they are not applied to the FixedArray parent object "
+        "itself nor to IndexedArray expressions (which have their own read / assign probes)",
         "integer-vector indexing: ranks 1..4, argument-type patterns of the compiled menu (drv_views_idx.h); the default "
         "build is given admissible index-vector entries only; a zero extent behind a non-zero leading extent is probed by "
         "seven fixed regression cases (finding F-47, fixed), the random streams select "
@@ -2126,6 +2403,15 @@ def run(ctx, replay):
         step = 4000
         for k in range(0, len(comps), step):
             run_batch(ctx, exes[mode], mode, comps[k:k + step], label)
+    # nothing selected, in every position of every rank; element access in every position of every rank: both builds
+    zsw = zero_extent_sweep()
+    ctx.notes["zero_extent_sweep_cases"] = len(zsw)
+    for mode in ("unchecked", "checked"):
+        lab = "default" if mode == "unchecked" else "bounds-checking"
+        run_batch(ctx, exes[mode], mode, zsw, lab + "/zero-extent-sweep")
+        esw = element_sweep(mode == "checked")
+        ctx.notes["element_access_sweep_cases_" + mode] = len(esw)
+        run_batch(ctx, exes[mode], mode, esw, lab + "/element-access-sweep")
     sysm = systematic_malformed()
     ctx.notes["systematic_malformed_cases"] = len(sysm)
     run_batch(ctx, exes["checked"], "checked", sysm, "bounds-checking/systematic")
@@ -2162,7 +2448,13 @@ def run(ctx, replay):
                        "FixedArray 10%%; row- or column-major, volume <= 240) followed by 1..%d view-forming "
                        "operations drawn from slice(int/end-k/range/stride(+/-)/__), subset, operator[], T, permute, diag_vector, "
                        "submatrix_on_diagonal, reshape, soft_link, and (passive ranks 1..4) integer-vector indexing A(S0,..) with "
-                       "scalar/end-k/range/__/intVector/integer-expression selectors read and assigned through; every operation "
+                       "scalar/end-k/range/__/intVector/integer-expression selectors read and assigned through; "
+                       "every range / stride argument selects NOTHING with probability 0.09 (empty range r:k+1,k or empty stride of "
+                       "either sign: zero extent in whatever position; the composition continues on the empty view), an operator() "
+                       "call is an element access (only scalars, int / end-k per position) with probability 0.07; after every "
+                       "operation the view is exercised through the whole-view operations V = c, V += c, B = V, V = B*2+3, move "
+                       "assignment, sum, maxval, where, count/find; "
+                       "every operation "
                        "that has a const overload goes through it with probability 1/2; with probability 0.3 one argument of an "
                        "eligible call (passive arrays) is rewritten as `end` arithmetic of a random compiled shape with the same "
                        "value, and with probability 0.45 one index vector (ranks 1-3) as an integer-vector expression; every intVector of "
@@ -2172,7 +2464,8 @@ def run(ctx, replay):
                        "%d admissible compositions on the default build, %d on the "
                        "bounds-checked build, %d with out-of-range values injected per argument position on the bounds-checked "
                        "build, %d with is_contiguous() probed after every step; plus the directed sweeps (const overloads on "
-                       "strided/reversed/offset receivers for every rank and kind of object; every `end`-arithmetic shape x role x "
+                       "strided/reversed/offset receivers for every rank and kind of object; zero-extent selector x rank 1..6 x position x "
+                       "neighbour kind x kind of object; element access x rank x position x int/end-k x value x const; every `end`-arithmetic shape x role x "
                        "position; every integer-vector expression x partner; every index-vector layout x pattern x position for ranks 1..4; counts in the notes); non-trivial = at least two "
                        "operations; distinct = different (mode, op list)" % (depth, n_valid, n_valid_chk, n_malf, n_contig))
     ctx.cov["exhaustive"] = False
